@@ -47,7 +47,7 @@ func TestC10(t *testing.T) {
 		ID: "C10",
 		Cfg: core.SimConfig{
 			Prop:   "C10",
-			Owned:  core.Own(core.CatIllegal, core.CatDeadTarget),
+			Owned:  core.Own(core.CatIllegal, core.CatDeadTarget, core.CatCorrupt),
 			Verify: core.FullVerify,
 			// a refused call that leaves a lock behind has changed the world
 			OwnedIf: func(s *core.Sim, f *core.Finding) bool {
